@@ -3,7 +3,10 @@
 package trafficcontroller
 
 import (
+	"bytes"
+	"compress/gzip"
 	"fmt"
+	"io"
 	"net/http"
 	"net/http/httptest"
 	"runtime"
@@ -12,6 +15,7 @@ import (
 	"sync"
 	"sync/atomic"
 	"testing"
+	"time"
 
 	"github.com/megaease/easegress/pkg/context"
 	_ "github.com/megaease/easegress/pkg/filters/corsadaptor"
@@ -93,20 +97,21 @@ func c11Pipeline(name string, k int, variant int) string {
       X-Gen-Req: "%d"
 - name: proxy
   kind: Proxy
-  pools:
+%s  pools:
   - servers:
     - url: %s
     loadBalance:
-      policy: roundRobin
+      policy: %s
+      headerHashKey: X-Client
     retryPolicy: retry3
     circuitBreakerPolicy: cb
     failureCodes: [503]
-- name: ra
+%s- name: ra
   kind: ResponseAdaptor
   header:
     set:
       X-Gen: "%d"
-`, k, c11Backend().URL, k)
+`, k, c11ProxyLevelOpts(k), c11Backend().URL, c11LBPolicy(k), c11PoolLevelOpts(k), k)
 		return b.String()
 	}
 	fmt.Fprintf(&b, `- name: mock
@@ -123,6 +128,36 @@ func c11Pipeline(name string, k int, variant int) string {
       X-Gen: "%d"
 `, k, k)
 	return b.String()
+}
+
+// The optional, stateful options of the Proxy come and go from generation to generation (a
+// pure function of k, so that re-applying generation k is an unchanged spec): the pool's
+// memoryCache in every third generation, response compression in every fourth, a (generous)
+// pool timeout in every fifth, and the load-balance policy cycles.
+func c11HasCache(k int) bool       { return k%3 == 1 }
+func c11HasCompression(k int) bool { return k%4 == 2 }
+func c11HasTimeout(k int) bool     { return k%5 == 3 }
+
+func c11LBPolicy(k int) string {
+	return []string{"roundRobin", "random", "ipHash", "headerHash"}[k%4]
+}
+
+func c11ProxyLevelOpts(k int) string {
+	if c11HasCompression(k) {
+		return "  compression:\n    minLength: 1\n"
+	}
+	return ""
+}
+
+func c11PoolLevelOpts(k int) string {
+	s := ""
+	if c11HasTimeout(k) {
+		s += "    timeout: 10m\n"
+	}
+	if c11HasCache(k) {
+		s += "    memoryCache:\n      expiration: 1h\n      maxEntryBytes: 4096\n      codes: [200]\n      methods: [GET]\n"
+	}
+	return s
 }
 
 var (
@@ -147,6 +182,18 @@ func c11BackendHandler(pool string) http.Handler {
 			c11Attempts[id]++
 			n := c11Attempts[id]
 			c11AttemptsMu.Unlock()
+			if v, ok := c11Parks.Load(id); ok {
+				// the request is parked here, inside the backend, on the attempt its slot names,
+				// until the rig has finished the update it wants to overlap with
+				if s := v.(*c11ParkSlot); n == s.attempt {
+					close(s.arrived)
+					select {
+					case <-s.release:
+					case <-time.After(5 * time.Minute):
+						atomic.StoreInt32(&s.timedOut, 1) // watchdog: the rig reports Inconclusive
+					}
+				}
+			}
 			if ff, _ := strconv.Atoi(r.Header.Get("X-Fail-First")); n <= ff {
 				code, _ := strconv.Atoi(r.Header.Get("X-Fail-Code"))
 				if code == 0 {
@@ -162,6 +209,22 @@ func c11BackendHandler(pool string) http.Handler {
 		}
 		fmt.Fprintf(w, "gen-%s", r.Header.Get("X-Gen-Req"))
 	})
+}
+
+// c11ParkSlot lets a rig hold one request (identified by its X-Req-Id) in flight at the backend.
+type c11ParkSlot struct {
+	attempt  int // which attempt of the request is held (1 = the first)
+	arrived  chan struct{}
+	release  chan struct{}
+	timedOut int32
+}
+
+var c11Parks sync.Map // X-Req-Id -> *c11ParkSlot
+
+func c11Park(id string, attempt int) *c11ParkSlot {
+	s := &c11ParkSlot{attempt: attempt, arrived: make(chan struct{}), release: make(chan struct{})}
+	c11Parks.Store(id, s)
+	return s
 }
 
 func c11StartBackends() {
@@ -191,6 +254,7 @@ type c11Obs struct {
 	Result   string `json:"result"`
 	Pool     string `json:"pool,omitempty"`
 	Attempts int    `json:"backend_attempts,omitempty"` // only for requests that carry X-Req-Id
+	Gzip     bool   `json:"gzip,omitempty"`             // the body arrived gzip-encoded (Proxy compression option)
 }
 
 // c11Call sends one request; every fourth one asks the (Proxy variants') backend to fail its
@@ -200,11 +264,20 @@ func c11Call(h context.Handler) c11Obs {
 	if n%4 != 0 {
 		return c11Do(h, nil)
 	}
-	return c11Do(h, map[string]string{"X-Req-Id": fmt.Sprintf("conc-%d", n), "X-Fail-First": "1"})
+	// its own path: a generation with a memoryCache must not answer it from the cache
+	return c11DoReq(h, "GET", fmt.Sprintf("/r/%d", n), "", map[string]string{"X-Req-Id": fmt.Sprintf("conc-%d", n), "X-Fail-First": "1"})
 }
 
 func c11Do(h context.Handler, hdr map[string]string) c11Obs {
-	std := httptest.NewRequest("GET", "http://h.test/x", nil)
+	return c11DoReq(h, "GET", "/x", "", hdr)
+}
+
+func c11DoReq(h context.Handler, method, path, body string, hdr map[string]string) c11Obs {
+	var rd io.Reader
+	if body != "" {
+		rd = strings.NewReader(body)
+	}
+	std := httptest.NewRequest(method, "http://h.test"+path, rd)
 	std.Header.Set("X-Client", "verif")
 	for k, v := range hdr {
 		std.Header.Set(k, v)
@@ -218,7 +291,15 @@ func c11Do(h context.Handler, hdr map[string]string) c11Obs {
 	if v := ctx.GetResponse(context.DefaultNamespace); v != nil {
 		if resp, ok := v.(*httpprot.Response); ok {
 			o.Status = resp.StatusCode()
-			o.Body = string(resp.RawPayload())
+			raw, _ := io.ReadAll(resp.GetPayload())
+			if strings.Contains(resp.HTTPHeader().Get("Content-Encoding"), "gzip") {
+				if zr, err := gzip.NewReader(bytes.NewReader(raw)); err == nil {
+					if plain, err := io.ReadAll(zr); err == nil {
+						raw, o.Gzip = plain, true
+					}
+				}
+			}
+			o.Body = string(raw)
 			o.Hdr = resp.HTTPHeader().Get("X-Gen")
 			o.Pool = resp.HTTPHeader().Get("X-Pool")
 		}
@@ -256,7 +337,7 @@ func c11GenOf(o c11Obs) (int, int, bool) {
 func TestVerif_C11_Pipelines(t *testing.T) {
 	r := kit.Start(t, "C11")
 	defer r.Finish()
-	r.Rule("rig 2/3: real TrafficController + real Pipelines (RateLimiter whose state is inherited, Mock, ResponseAdaptor, optionally CORSAdaptor/Validator/RequestAdaptor, and in half of the cases a real Proxy with Retry and CircuitBreaker policies and failureCodes [503] to a scripted loopback backend in place of the Mock; every fourth request asks that backend to fail its first attempt with 503, which the Retry policy of whichever generation serves the request must mask); 8 client goroutines call GetHandler(hot).Handle while one goroutine applies generations g0..gN of 'hot' (body and header both carry the generation) and another creates/updates/deletes three other pipelines; oracle: no panic, status 200 (a request whose failed first attempt was not retried gets its own signature), body generation == header generation, applied-before-start <= generation <= started-before-end, the untouched pipeline 'stable' always available with its own marker; sequential: handler obtained before an update is used after it (and after the old generation was closed), re-applying an identical spec returns the same entity and instance; distinct = (phase, variant, generation lag, overlap)")
+	r.Rule("rig 2/3: real TrafficController + real Pipelines (RateLimiter whose state is inherited, Mock, ResponseAdaptor, optionally CORSAdaptor/Validator/RequestAdaptor, and in half of the cases a real Proxy with Retry and CircuitBreaker policies and failureCodes [503] to a scripted loopback backend in place of the Mock; the optional stateful parts of that Proxy come and go with the generation number k: pool memoryCache iff k%3==1, compression (minLength 1, gzip bodies are decoded by the observer) iff k%4==2, pool timeout 10m iff k%5==3, loadBalance policy roundRobin/random/ipHash/headerHash by k%4; every fourth request goes to a path of its own (never answered from a memoryCache) and asks that backend to fail its first attempt with 503, which the Retry policy of whichever generation serves the request must mask); 8 client goroutines call GetHandler(hot).Handle while one goroutine applies generations g0..gN of 'hot' (body and header both carry the generation) and another creates/updates/deletes three other pipelines; oracle: no panic, status 200 (a request whose failed first attempt was not retried gets its own signature), body generation == header generation, applied-before-start <= generation <= started-before-end, the untouched pipeline 'stable' always available with its own marker; sequential (old generations 0..4, so that each optional Proxy part is in a closed generation that is then used): handler obtained before an update is used after it (and after the old generation was closed), re-applying an identical spec returns the same entity and instance; distinct = (phase, variant, generation lag, overlap)")
 	r.Assume("an update has 'been applied' when ApplyPipelineForSpec/UpdatePipelineForSpec returned")
 	super := supervisor.NewDefaultMock()
 	rounds := r.N(10, 300)
@@ -269,7 +350,9 @@ func TestVerif_C11_Pipelines(t *testing.T) {
 		if i%5 == 2 {
 			variant |= 4 // the Proxy + resilience variant is exercised in every shard
 		}
-		gens := 30 + rng.Intn(40)
+		// quick: fewer generations per case than before the optional Proxy parts (gzip, cache) made
+		// a generation dearer
+		gens := r.N(20, 30) + rng.Intn(r.N(30, 40))
 		useUpdate := rng.Intn(2) == 0
 		r.Case(i, map[string]interface{}{"variant": variant, "generations": gens, "useUpdate": useUpdate})
 		tc := c11NewTC(super)
@@ -290,7 +373,8 @@ func TestVerif_C11_Pipelines(t *testing.T) {
 		space := tc.namespaces[ns]
 
 		// ---- sequential: old generation used after the update, unchanged spec no-op
-		for k := 1; k <= 3; k++ {
+		const seqGens = 5 // old generations 0..4: each optional Proxy option is present in one of them
+		for k := 1; k <= seqGens; k++ {
 			old, ok := space.GetHandler("hot")
 			if !ok {
 				r.Violation("pipeline-hot-update:handler-missing", "hot not found")
@@ -304,6 +388,17 @@ func TestVerif_C11_Pipelines(t *testing.T) {
 			in := map[string]interface{}{"variant": variant, "step": "old generation handles a request after new.Inherit(old)+old.Close()", "k": k}
 			if !r.Guard("C11:old-generation-after-update", in, func() { o = c11Call(old) }) {
 				r.Count("old_generation_requests", 1)
+				if variant&4 != 0 {
+					// the old generation's Proxy had these optional parts when it was closed
+					for opt, has := range map[string]bool{"memory_cache": c11HasCache(k - 1), "compression": c11HasCompression(k - 1), "pool_timeout": c11HasTimeout(k - 1)} {
+						if has {
+							r.Count("old_generation_requests_proxy_with_"+opt, 1)
+						}
+					}
+					if o.Gzip {
+						r.Count("old_generation_requests_answered_gzip", 1)
+					}
+				}
 				if o.Status != 200 && o.Attempts == 1 {
 					r.Violation(fmt.Sprintf("pipeline-hot-update:old-generation-request-failed:failed-first-attempt-not-retried:status%d", o.Status), map[string]interface{}{"obs": o, "variant": variant, "old_generation": k - 1})
 				} else if o.Status != 200 {
@@ -323,7 +418,8 @@ func TestVerif_C11_Pipelines(t *testing.T) {
 		}
 
 		// ---- concurrent
-		var started, done int64 = 3, 3
+		var started, done int64 = seqGens, seqGens
+		var overlappedCache int64
 		var stop int32
 		var served, overlapped, retrySaved int64
 		var wg sync.WaitGroup
@@ -376,7 +472,12 @@ func TestVerif_C11_Pipelines(t *testing.T) {
 						r.Violation("pipeline-hot-update:"+bad, map[string]interface{}{"pipeline": name, "obs": o, "applied_before_start": lo, "started_before_end": hi, "variant": variant})
 						continue
 					}
-					r.Cover(fmt.Sprintf("conc/%s/variant%d/lag=%d/overlap=%v", name, variant, minInt64(hi-int64(bk), 2), hi != lo))
+					if name == "hot" && variant&4 != 0 && hi != lo && int64(bk) < hi && c11HasCache(bk) {
+					// served by a generation whose Proxy has a memoryCache while that generation
+					// was being (or had been) replaced and closed
+					atomic.AddInt64(&overlappedCache, 1)
+				}
+				r.Cover(fmt.Sprintf("conc/%s/variant%d/lag=%d/overlap=%v", name, variant, minInt64(hi-int64(bk), 2), hi != lo))
 				}
 			}(c)
 		}
@@ -405,7 +506,7 @@ func TestVerif_C11_Pipelines(t *testing.T) {
 			}
 			r.Count("churn_ops_on_other_objects", int64(n))
 		}()
-		for k := 4; k < 4+gens; k++ {
+		for k := seqGens + 1; k <= seqGens+gens; k++ {
 			spec, err := super.NewSpec(c11Pipeline("hot", k, variant))
 			if err != nil {
 				t.Fatal(err)
@@ -433,6 +534,7 @@ func TestVerif_C11_Pipelines(t *testing.T) {
 		r.Count("pipeline_requests", served)
 		r.Count("pipeline_requests_overlapping_an_update", overlapped)
 		r.Count("pipeline_requests_saved_by_retry_policy", retrySaved)
+		r.Count("pipeline_requests_overlapping_the_replacement_of_their_generation_with_memory_cache", overlappedCache)
 		if i < 2 {
 			r.Sample(map[string]interface{}{"rig": "trafficcontroller", "variant": variant, "generations": gens, "requests": served, "overlapping": overlapped, "spec_gen_1": c11Pipeline("hot", 1, variant)})
 		}
@@ -441,6 +543,11 @@ func TestVerif_C11_Pipelines(t *testing.T) {
 	r.Require("pipeline_requests_overlapping_an_update", 1)
 	r.Require("pipeline_requests_saved_by_retry_policy", 1)
 	r.Require("old_generation_requests", 1)
+	r.Require("old_generation_requests_proxy_with_memory_cache", 1)
+	r.Require("old_generation_requests_proxy_with_compression", 1)
+	r.Require("old_generation_requests_proxy_with_pool_timeout", 1)
+	r.Require("old_generation_requests_answered_gzip", 1)
+	r.Require("pipeline_requests_overlapping_the_replacement_of_their_generation_with_memory_cache", 1)
 	r.Require("unchanged_reapply", 1)
 }
 
